@@ -227,6 +227,19 @@ def t_call(fname: str, args: Sequence[Term]) -> Term:
                 k += 1
             if w == 1:
                 return Term.const(k)
+    if fname in ('sin', 'cos') and len(args) == 1:
+        # exact values at the angles pi/2, pi/4, pi/6, pi/3 (needed when a cardinality is a literal)
+        s = args[0].single()
+        if s is not None and len(s[0]) == 1 and s[0][0] == (('sym', 'pi'), Fraction(1)):
+            k = s[1]
+            table = {('sin', Fraction(1, 2)): Term.const(1), ('cos', Fraction(1, 2)): Term.const(0),
+                     ('sin', Fraction(1, 4)): t_pow(Term.const(2), Term.const(Fraction(-1, 2))),
+                     ('cos', Fraction(1, 4)): t_pow(Term.const(2), Term.const(Fraction(-1, 2))),
+                     ('sin', Fraction(1, 6)): Term.const(Fraction(1, 2)), ('cos', Fraction(1, 3)): Term.const(Fraction(1, 2)),
+                     ('sin', Fraction(1, 3)): t_pow(Term.const(3), Term.const(Fraction(1, 2))) * Term.const(Fraction(1, 2)),
+                     ('cos', Fraction(1, 6)): t_pow(Term.const(3), Term.const(Fraction(1, 2))) * Term.const(Fraction(1, 2))}
+            if (fname, k) in table:
+                return table[(fname, k)]
     return Term.atom(('call', fname, tuple(a.key() for a in args)))
 
 
